@@ -1,7 +1,7 @@
 (* Verification cases (C01 C02 C03 C05 C06 C08 C12):
    (V <L|W> <request> <presentation> <ctx> <implementation outcome> <base verdict opt>) *)
 From Coq Require Import List String ZArith NArith Bool.
-From AV Require Import Model.Sexp Model.Query Model.VTypes Model.VDecode Model.VCfg Model.VProps.
+From AV Require Import Model.Sexp Model.Query Model.VTypes Model.Interval Model.VDecode Model.VCfg Model.VProps.
 Import ListNotations.
 Open Scope string_scope.
 
@@ -33,7 +33,39 @@ Definition ok_V (p : string) (c : vcase) (base : option bool) (o : outcome) : op
   else if p =? "C08" then match base with Some b => Some (ok_C08 c b o) | None => None end
   else None.
 
+(* unit-level cases of the interval functions (C08):
+   (M a b merged) compare_and_set ; (O iv ((from to)...) result) update_with_override ;
+   (T iv t ok) is_valid ; (G revreg-opt local-opt global-opt override-opt result-opt) get_requested_non_revoked_interval *)
+Definition interval_eqb (a b : interval) : bool :=
+  let oeq x y := match x, y with Some u, Some v => Z.eqb u v | None, None => true | _, _ => false end in
+  oeq (ifrom a) (ifrom b) && oeq (ito a) (ito b).
+Definition opt_interval_eqb (a b : option interval) : bool :=
+  match a, b with Some x, Some y => interval_eqb x y | None, None => true | _, _ => false end.
+Definition check_interval_unit (args : list sexp) : option (list sexp) :=
+  match args with
+  | [A "M"; a; b; r] =>
+      match dec_interval a, dec_interval b, dec_interval r with
+      | Some a', Some b', Some r' => Some [A (if interval_eqb (merge a' b') r' then "ok" else "bad"); A "unit:compare_and_set"]
+      | _, _, _ => None end
+  | [A "O"; i; m; r] =>
+      match dec_interval i, dec_list (dec_pair dec_Z dec_Z) m, dec_interval r with
+      | Some i', Some m', Some r' => Some [A (if interval_eqb (override m' i') r' then "ok" else "bad"); A "unit:update_with_override"]
+      | _, _, _ => None end
+  | [A "T"; i; t; ok] =>
+      match dec_interval i, dec_Z t, dec_bool ok with
+      | Some i', Some t', Some ok' => Some [A (if Bool.eqb (is_valid i' t') ok' then "ok" else "bad"); A "unit:is_valid"]
+      | _, _, _ => None end
+  | [A "G"; rr; l; g; ov; r] =>
+      match dec_opt dec_str rr, dec_opt dec_interval l, dec_opt dec_interval g,
+            dec_opt (dec_list (dec_pair dec_str (dec_list (dec_pair dec_Z dec_Z)))) ov, dec_opt dec_interval r with
+      | Some rr', Some l', Some g', Some ov', Some r' =>
+          Some [A (if opt_interval_eqb (requested_interval rr' l' g' ov') r' then "ok" else "bad"); A "unit:get_requested_non_revoked_interval"]
+      | _, _, _, _, _ => None end
+  | _ => None
+  end.
+
 Definition check_V (p : string) (args : list sexp) : list sexp :=
+  match check_interval_unit args with Some v => v | None =>
   match args with
   | [A "V"; fmt; r; pr; cx; impl; base] =>
       match dec_vcase fmt r pr cx, dec_outcome impl, dec_opt dec_bool base with
@@ -50,4 +82,4 @@ Definition check_V (p : string) (args : list sexp) : list sexp :=
       | _, _, _ => [A "decode-error"]
       end
   | _ => [A "decode-error"]
-  end.
+  end end.
